@@ -42,7 +42,7 @@ impl Prop for C05 {
         "C05"
     }
     fn rule(&self) -> String {
-        "graphs of all 8 kinds, n in 0..=8 (oracle: explicit enumeration of all shortest paths per ordered pair and counting those with v strictly inside) and n in 21..=30 (oracle: sigma products on the Floyd-Warshall matrix), shapes and shuffled insertion order as C04; weight modes unweighted / positive dyadic / tie-rich; every graph is evaluated in all of weighted x normalized that apply; tolerance 1e-9 relative. Exhaustive block: all graphs on <= 3 nodes of the single-edge kinds. Non-trivial = some node has non-zero betweenness and some pair has >= 2 shortest paths; distinct = distinct serialised case.".into()
+        "graphs of all 8 kinds, n in 0..=8 (oracle: explicit enumeration of all shortest paths per ordered pair and counting those with v strictly inside) n in 9..=30 and boundary sizes up to 255 (oracle: sigma products on the Floyd-Warshall matrix), and one case in 4300 with a procedurally generated sparse graph of 300..3000 nodes (oracle: an independent Brandes implementation, itself compared with the brute-force oracle on every small case), shapes and shuffled insertion order as C04; weight modes unweighted / positive dyadic / tie-rich; every graph is evaluated in all of weighted x normalized that apply; tolerance 1e-9 relative. Exhaustive block: all graphs on <= 3 nodes of the single-edge kinds. Non-trivial = some node has non-zero betweenness and some pair has >= 2 shortest paths; distinct = distinct serialised case.".into()
     }
     fn assumptions(&self) -> Vec<String> {
         vec!["positive weights; paths are node sequences (parallel edges do not multiply path counts)".into(), "float comparison with relative tolerance 1e-9 (the quotient sigma_sv*sigma_vt/sigma_st is not exact)".into()]
@@ -62,10 +62,12 @@ impl Prop for C05 {
         v
     }
     fn strategy(&self, _tier: Tier) -> BoxedStrategy<GraphCase> {
-        let small = graph_strategy(&ALL_KINDS, 0, 8, edges_small, &[0, 1, 3, 3], 4);
+        let small = graph_strategy(&ALL_KINDS, 0, 8, edges_small, &[0, 1, 3, 3, 5, 6], 4);
         let mid = graph_strategy(&ALL_KINDS, 9, 20, edges_large, &[0, 1, 3], 3);
         let large = graph_strategy(&ALL_KINDS, 21, 30, edges_large, &[0, 1, 3], 3);
-        prop_oneof![40 => small, 2 => mid, 1 => large].boxed()
+        let boundary = boundary_graph_strategy(&ALL_KINDS, edges_large, &[0, 1, 3], 3, 255);
+        let big = big_graph_strategy(&[0, 1], 300, 3000, &[0, 1]);
+        prop_oneof![8000 => small, 400 => mid, 200 => large, 20 => boundary, 1 => big].boxed()
     }
     fn random_cases(&self, tier: Tier) -> u32 {
         tier.pick(150_000, 1_500_000)
@@ -79,8 +81,18 @@ impl Prop for C05 {
         let mut any_nonzero = false;
         let modes: Vec<bool> = if ng.weighted { vec![true, false] } else { vec![false] };
         for weighted in modes {
-            let w = weight_matrix(&ng, weighted);
-            let raw = if n <= 8 { betweenness_brute(&w) } else { betweenness_sigma(&w) };
+            let w = if n <= 260 { weight_matrix(&ng, weighted) } else { vec![] };
+            let raw = if n <= 8 {
+                let b = betweenness_brute(&w);
+                // self-test of the fast oracle used for the large-size class
+                let f = betweenness_fast(&ng, weighted);
+                assert!(b.iter().zip(&f).all(|(x, y)| approx(*x, *y, 1e-9, 1e-12)), "harness bug: fast betweenness oracle disagrees with brute force");
+                b
+            } else if n <= 260 {
+                betweenness_sigma(&w)
+            } else {
+                betweenness_fast(&ng, weighted)
+            };
             if n <= 8 {
                 let d = floyd(&w);
                 for s in 0..n {
@@ -108,7 +120,7 @@ impl Prop for C05 {
         }
         out.class(format!("kind_{}", ng.spec().label()));
         out.class(format!("wmode_{}", case.wmode));
-        out.class(if n <= 8 { "n<=8_bruteforce" } else if n <= 20 { "n_9_to_20" } else { "n>20_parallel_path" });
+        out.class(if n > 260 { "large_graph_300_to_3000_nodes" } else if n <= 8 { "n<=8_bruteforce" } else if n <= 20 { "n_9_to_20" } else if n <= 30 { "n>20_parallel_path" } else { "boundary_size_31_to_255" });
         if n <= 2 {
             out.class("n<=2");
         }
